@@ -82,7 +82,12 @@ def detect(seed, checks):
                           "tool_error": [l[:300] for l in out.splitlines() if l.startswith("TOOL-ERROR")][:1]}
             print(c, json.dumps(results[c]))
     finally:
+        # undo: reverse-apply (this also removes files the patch created); whatever is left is reset
+        sh("git -C %s apply -R %s" % (REPO, patch))
         sh("git -C %s checkout -- ." % REPO)
+        rc2, left = sh("git -C %s status --porcelain" % REPO)
+        if left.strip():
+            print("WARNING: /repo not clean after undoing the patch:\n" + left)
     with open(os.path.join(seed, "detection.json"), "w") as f:
         json.dump({"checks": results, "at": time.strftime("%Y-%m-%dT%H:%M:%S")}, f, indent=1)
     return 0
